@@ -20,6 +20,8 @@ pub fn pad_align_to(value: usize, align_to: usize) -> (r: usize)
 
 //@include inc/ser_common.tpl
 
+//@include inc/ser_copy.tpl
+
 //@include inc/ser_base.tpl
 
 } // verus!
